@@ -512,6 +512,31 @@ class Builder:
     def sub(self, region, fn):
         b = self.counter.fresh()
         seq = self._nested(fn, same_input=False, drops=True)
+        return self._emit_sub(b, region, seq)
+
+    def _emit_sub(self, b, region, seq):
+        """a nested grammar applied to an already cut region.  Canonical forms: a nested grammar that reads nothing is
+        its value; one that only takes the whole region is the region; a branch as the only step is a branch between
+        two region grammars (so `if c {A} else {parse(region)}` and `parse'(region)` with the test inside agree)"""
+        st, r = seq["steps"], seq["ret"]
+        if r and r[0] == "ok":
+            if not st:
+                return r[1]
+            if len(st) == 1 and st[0][0] == "bytes" and st[0][2] == REMAINING and st[0][3] == "X":
+                return subst(r[1], V(st[0][1]), region)
+            if len(st) == 1 and st[0][0] == "ite" and r[1] == V(st[0][1]):
+                _, ib, c, sa, sb = st[0]
+                def arm(s):
+                    if not s["steps"] and s["ret"] and s["ret"][0] == "err":
+                        return s
+                    tmp = Builder(self.counter)
+                    if s["ret"] and s["ret"][0] == "ok":
+                        v = tmp._emit_sub(self.counter.fresh(), region, s)
+                        return {"steps": tmp.steps, "ret": ["ok", v]}
+                    nb_ = self.counter.fresh()
+                    return {"steps": [["sub", nb_, region, s]], "ret": ["ok", V(nb_)]}
+                self.steps.append(["ite", ib, c, arm(sa), arm(sb)])
+                return V(ib)
         self.steps.append(["sub", b, region, seq])
         return V(b)
 
@@ -545,13 +570,6 @@ class Builder:
         if not sb["steps"] and sb["ret"] and sb["ret"][0] == "err" and sb["ret"][2] == "Error":
             self.guard(canon(["not", c]), sb["ret"][1])
             return self._splice(sa, ca)
-        # `if x == k { A } else { B }` is `match x { k => A, _ => B }` (and the negated form)
-        ec = eq_consts(c)
-        if ec is not None:
-            return self._switch_built(ec[0], [(sorted(set(ec[1])), sa, ca)], sb, cb)
-        nc = eq_consts(canon(["not", c]))
-        if nc is not None:
-            return self._switch_built(nc[0], [(sorted(set(nc[1])), sb, cb)], sa, ca)
         # `if c { Some(parse) } else { None }` is nom's cond(c, parse)
         def is_none(s):
             return not s["steps"] and s["ret"] == ["ok", NONE]
@@ -570,9 +588,17 @@ class Builder:
             self.steps.append(["cond", b, canon(["not", c]), some_of(sb)])
             self._adv()
             return V(b)
+        # `if x == k { A } else { B }` is `match x { k => A, _ => B }` (and the negated form)
+        ec = eq_consts(c)
+        if ec is not None:
+            return self._switch_built(ec[0], [(sorted(set(ec[1])), sa, ca)], sb, cb)
+        nc = eq_consts(canon(["not", c]))
+        if nc is not None:
+            return self._switch_built(nc[0], [(sorted(set(nc[1])), sb, cb)], sa, ca)
         b = self.counter.fresh()
         self.steps.append(["ite", b, c, sa, sb])
-        self._adv()
+        if ca.cur != self.cur or cb.cur != self.cur:
+            self._adv()  # (a branch between arms that read nothing leaves the position where it was)
         return V(b)
 
     def _inline(self, fn):
@@ -677,7 +703,9 @@ class Builder:
             key = json.dumps(renumber(copy.deepcopy(ent[1])), sort_keys=True)
             ent[1] = canon_of.setdefault(key, ent[1])
         self.steps.append(["switch", b, scrut, flat, d])
-        self._adv()
+        kids = [x[2] for x in built] + [dchild]
+        if any(k is None or k.cur != self.cur for k in kids):
+            self._adv()
         return V(b)
 
     def param_parser(self, name):
@@ -1032,6 +1060,14 @@ class Ev:
         if k == "pstruct":
             for f in p["fields"]:
                 self.bind_pat(f["pat"], fld(val, f["name"]), env)
+            return
+        if k == "pslice" and p.get("mid") is None and not p.get("after"):
+            pats = p["before"]
+            for i, sp in enumerate(pats):
+                if isinstance(val, list) and len(val) == 2 and val[0] == "array" and isinstance(val[1], list) and len(val[1]) == len(pats):
+                    self.bind_pat(sp, val[1][i], env)
+                else:
+                    self.bind_pat(sp, ["idx", val, N(i)], env)
             return
         raise Opaque("binding pattern " + k)
 
@@ -1991,6 +2027,11 @@ class Ev:
                 if recv[0] == "tokbytes":
                     return eq(REMAINING, N(0))
                 return eq(["len", recv], N(0))
+            m_ = re.fullmatch(r"core::num::<impl u(16|32|64)>::to_(be|le)_bytes", p)
+            if m_ and not args:
+                nb_ = int(m_.group(1)) // 8
+                bs = [canon(["cast", "u8", op(">>", recv, N(8 * (nb_ - 1 - i)))]) if i < nb_ - 1 else canon(["cast", "u8", recv]) for i in range(nb_)]
+                return ["array", bs if m_.group(2) == "be" else bs[::-1]]
             if p == "core::slice::<impl [T]>::split_at" and len(args) == 1:
                 # (x[..n], x[n..]); the out-of-range panic is C01's business (PANIC-SITE split_at rule)
                 return tup(["slice_to", recv, args[0]], ["slice_from", recv, args[0]])
